@@ -229,7 +229,7 @@ def run(ctx):
                 if bad2:
                     b["mismatching_scenarios_in_this_run"] = len(bad)
                     mismatches.append(b)
-    restart_rows, rf = lc.restart_failures(binp, ctx.seed, 24 if ctx.tier == "quick" else 200)
+    restart_rows, rf = lc.restart_failures(binp, ctx.seed, 27 if ctx.tier == "quick" else 198)
     failures += rf
     nfree = 240 if ctx.tier == "quick" else 3000
     if len(failures) >= 3:
